@@ -47,7 +47,11 @@ func debugDump(w *World, what string, args []string) {
 		r := NewReport("C18", "quick", "/tmp/dbg")
 		r.W = w
 		var entries []*ssa.Function
-		for _, n := range []string{"(*sfnt.Font).Write", "(*sfnt.Font).WriteTrueTypePDF", "(*sfnt.Font).WriteOpenTypeCFFPDF", "(*cff.Font).Write", "header.Write"} {
+		names := []string{"(*sfnt.Font).Write", "(*sfnt.Font).WriteTrueTypePDF", "(*sfnt.Font).WriteOpenTypeCFFPDF", "(*cff.Font).Write", "header.Write"}
+		if len(args) > 0 {
+			names = args
+		}
+		for _, n := range names {
 			if fn := w.Func(n); fn != nil {
 				entries = append(entries, fn)
 			}
